@@ -209,7 +209,10 @@ def gen_plan(pool: dict, rng: random.Random, mix_hint=None) -> list[list[dict]]:
         for _ in range(rng.choice([2, 3, 3]) if mix_hint else rng.choice([1, 1, 2, 3])):
             k = rng.choice(mix)
             if k == "C":
-                jobs.append({"k": "C", "i": rng.randrange(nt)})
+                proj = [i_ for i_, t_ in enumerate(pool["texts"]) if t_["kind"] == "exps-imports"]
+                # scripts of the multi-file projects share files, directories and lookup paths: two of them at once is
+                # where compiles can get into each other's way
+                jobs.append({"k": "C", "i": rng.choice(proj) if proj and rng.random() < 0.4 else rng.randrange(nt)})
             elif k in ("D", "S") and nd:
                 jobs.append({"k": k, "j": rng.randrange(nd)})
             elif k == "SC" and ns:
